@@ -1030,6 +1030,34 @@ func (e *Env) call(x *ECall) *SV {
 		ne.st = e.old
 		ne.inOld = true
 		return ne.eval(x.Args[0])
+	case "entryheap":
+		// entryheap(e): e read in the heaps of the function's entry state, with the current values of
+		// locals (for recursive spec functions over a list the function does not change)
+		if e.old == nil {
+			specFail("entryheap() needs an entry state")
+		}
+		ne := *e
+		st2 := e.st.clone()
+		st2.heaps = map[string]string{}
+		for k, v := range e.old.heaps {
+			st2.heaps[k] = v
+		}
+		ne.st = st2
+		return ne.eval(x.Args[0])
+	case "loopheap":
+		// loopheap(e): e read in the heaps of the state in which the loop was entered, with the
+		// current values of locals
+		if e.loopOld == nil {
+			specFail("loopheap() is only available in loop invariants")
+		}
+		ne := *e
+		st2 := e.st.clone()
+		st2.heaps = map[string]string{}
+		for k, v := range e.loopOld.heaps {
+			st2.heaps[k] = v
+		}
+		ne.st = st2
+		return ne.eval(x.Args[0])
 	case "loopold":
 		// loopold(e): value of e when the loop was entered (loop invariants only)
 		if e.loopOld == nil {
